@@ -73,7 +73,7 @@ def mk_space(name, alpha, n, patterns, funcs, full, dtype="f8", split_every=(Non
 
 def spaces(ctx):
     small = [gen.iv(-2), gen.iv(1), gen.NAN]
-    pats = {2: [[0, 0], [1, 0]], 3: [[0, 1, 0], [1, 0, 0], [0, 0, 0], [0, -1, 0]]}
+    pats = {2: [[0, 0], [1, 0]], 3: [[0, 1, 0], [1, 0, 0], [0, 0, 0], [0, -1, 0], [-1, -1, -1]]}
     core = [mk_space(f"core{n}", small, n, pats[n], FUNCS + BLOCKWISE_ONLY, full=False) for n in (2, 3)]
     rest = [
         mk_space("small3-full", small, 3, pats[3], FUNCS + BLOCKWISE_ONLY, full=True),
@@ -108,9 +108,12 @@ def run(ctx):
     ctx.cov["space"] = {"core_sizes": {sp.name: sp.size for sp in core}, "rest_sizes": {sp.name: sp.size for sp in rest}, "visited": len(cases)}
     ctx.cov["exhaustive"] = False
     shared.run_reduce_and_validate(ctx, cases, tag="c02")
-    from . import graphreplay
+    from . import compose, graphreplay
 
     graphreplay.replay_graphs(ctx, prop="C02")
+    # the composed specification (Flox.tla): exhaustive at small bounds, then its behaviours replayed into the code
+    compose.model(ctx)
+    compose.replay(ctx, {"compose:result"})
     ctx.cov["rule"] = (
         "cases = (values over an alphabet with negatives/NaN/+-inf, unsorted labels incl. missing, ALL chunkings of the axis, "
         "method in {None,map-reduce,cohorts,blockwise(if confined)}, reindex in {None,True,False}, numpy|dask labels, split_every); "
